@@ -31,7 +31,9 @@ type FanSpec struct {
 	SimMax    int             `json:"simMax,omitempty"`
 	// ExpMin / ExpMax: the limits the user's configuration and the attached measurement define (configured values
 	// win over measured ones), where the property text settles them; nil = not asserted
-	ExpMin *int `json:"expMin,omitempty"`
+	// HomePath (file fans): the paths are given in the documented "~/..." form
+	HomePath bool `json:"homePath,omitempty"`
+	ExpMin   *int `json:"expMin,omitempty"`
 	ExpMax *int `json:"expMax,omitempty"`
 }
 
@@ -89,6 +91,14 @@ type Scenario struct {
 	InitMode int         `json:"initMode"`
 	PriorRpm float64     `json:"priorRpm"`
 	Steps    []CycleStep `json:"steps"`
+}
+
+// Label: the fan kind as it appears in classes and signatures
+func (f FanSpec) Label() string {
+	if f.HomePath {
+		return f.Kind + "-home"
+	}
+	return f.Kind
 }
 
 func (m MapSpec) build() map[int]int {
@@ -203,6 +213,12 @@ func buildWorld(ctx *Ctx, sc *Scenario) *World {
 			cfg = v.hwmonConfig(id, w.Curve.Id)
 		} else {
 			cfg = v.fileConfig(id, w.Curve.Id, sc.Fan.HasRpm)
+			if sc.Fan.HomePath {
+				cfg.File.Path = tildePath(cfg.File.Path)
+				if cfg.File.RpmPath != "" {
+					cfg.File.RpmPath = tildePath(cfg.File.RpmPath)
+				}
+			}
 		}
 		cfg.NeverStop = sc.Fan.NeverStop
 		cfg.MinPwm, cfg.StartPwm, cfg.MaxPwm = sc.Fan.CfgMin, sc.Fan.CfgStart, sc.Fan.CfgMax
@@ -618,10 +634,24 @@ func genCurveTrajectory(r *rand.Rand, n int, outOfRange bool) []int {
 	return out
 }
 
+// tildePath writes an absolute path in the "~" form fan2go documents for file fans and sensors (it joins the rest
+// to the user's home directory, so enough ".." lead back to the root)
+func tildePath(abs string) string {
+	return "~" + strings.Repeat("/..", 12) + abs
+}
+
+// homeKind: "file-home" = a file fan whose paths are given in the "~" form; a third of the plain file fans too
+func homeKind(r *rand.Rand, kind string) (string, bool) {
+	if kind == "file-home" {
+		return "file", true
+	}
+	return kind, kind == "file" && r.Intn(3) == 0
+}
+
 func genFan(r *rand.Rand, kinds []string) (FanSpec, int, int) {
-	kind := pick(r, kinds...)
+	kind, home := homeKind(r, pick(r, kinds...))
 	mn, mx := genLimits(r)
-	f := FanSpec{Kind: kind, NeverStop: r.Intn(3) > 0, HasRpm: r.Intn(5) > 0, HasEnable: r.Intn(4) > 0, HasPwm: true}
+	f := FanSpec{Kind: kind, HomePath: home, NeverStop: r.Intn(3) > 0, HasRpm: r.Intn(5) > 0, HasEnable: r.Intn(4) > 0, HasPwm: true}
 	switch kind {
 	case "hwmon":
 		if part := r.Intn(5); part == 0 {
